@@ -1,12 +1,13 @@
 #!/usr/bin/env python3
-"""verify_seed.py <ID> <A|B|C|D> "<what it breaks / needs>"
+"""verify_seed.py <ID> <A|B|C|D|E|F> "<what it breaks / needs>"
 Confirms a seeded change in its scratch worktree (/tmp/wt/<ID>): compiles, vets, passes both existing suites,
 demonstration fails with it and passes without it. On success stores /verif/seeded/<ID>-<X>/{patch.diff,demo/,meta.json}."""
 import json, os, shutil, subprocess, sys
 ID, X = sys.argv[1], sys.argv[2]
 needs = sys.argv[3] if len(sys.argv) > 3 else ""
 R2 = X in ("C", "D")  # second seeding round uses its own worktrees and output directories
-wt = f"/tmp/wt2/{ID}" if R2 else f"/tmp/wt/{ID}"; sd = f"/tmp/seed2_{ID}" if R2 else f"/tmp/seed_{ID}"; patch = f"{sd}/{X}.patch"; demo = f"{sd}/demo{X}"
+R4 = X in ("E", "F")  # fourth round (after the defect-hunting round)
+wt = f"/tmp/wt4/{ID}" if R4 else f"/tmp/wt2/{ID}" if R2 else f"/tmp/wt/{ID}"; sd = f"/tmp/seed4_{ID}" if R4 else f"/tmp/seed2_{ID}" if R2 else f"/tmp/seed_{ID}"; patch = f"{sd}/{X}.patch"; demo = f"{sd}/demo{X}"
 env = dict(os.environ, GOFLAGS="-mod=mod", GOPROXY="off", GOSUMDB="off", GOTOOLCHAIN="local")
 env.pop("GOWORK", None)
 log = []
